@@ -336,6 +336,7 @@ class Eval:
 
     def setup_params(self):
         self.params = []
+        bufs = {p.get('name') for p in self.fn.get('inner', []) if p.get('kind') == 'ParmVarDecl' and p['type'].get('qualType', '').strip() == 'char *'}
         for p in self.fn.get('inner', []):
             if p.get('kind') != 'ParmVarDecl':
                 continue
@@ -350,6 +351,9 @@ class Eval:
                 self.params.append(dict(name=name, role='msg'))
                 continue
             role = 'in' if self.mode == 'set' else ('out' if (byref and not isconst) else 'arg')
+            msz = re.fullmatch(r'(\w+?)(BufSize|MaxSize|Size)', name)
+            if self.mode == 'parse' and msz and msz.group(1) in bufs:
+                role = 'arg'          # size of a text buffer, not a field
             self.params.append(dict(name=name, role=role, qual=qt, type=t))
             if t[0] == 'rec' and self.w.records[t[1]]['tag'] == 'struct':
                 # a bag of fields
@@ -1537,8 +1541,10 @@ def collect(src_dir):
     """-> (pairs [R], stats)"""
     stats = dict(functions=0, pairs=0, setter_only=0, unpaired_parsers=0)
     results = []
+    worlds = stats.setdefault('_worlds', {})
     for fname in FILES:
         w = World(src_dir, fname)
+        worlds[fname] = w
         setters, parsers, others = {}, {}, []
         for fn in w.funcs:
             nm = fn['name']
@@ -1595,6 +1601,7 @@ def emit_lean(results, gen_dir, stats):
           'set and parsed: the parser reads the field from exactly the bits the setter wrote it to, with the same scaled',
           'side record. A failing `decide` here IS a setter/parser mismatch in the C++ source. -/',
           'set_option Elab.async false   -- hundreds of tiny kernel evaluations: thread hand-over costs more than the proofs',
+          'set_option linter.unusedSimpArgs false',
           'namespace N2k.Gen.LayoutProofs', 'open N2k.Layout N2k.Gen.Layouts', '']
     pair_names, n_obl, failing, negated = [], 0, [], []
     ok_pairs, open_pairs = [], []
@@ -1625,6 +1632,9 @@ def emit_lean(results, gen_dir, stats):
         L.append('  opaqueOut := [%s]' % ', '.join(str(idx[n_]) for n_ in R['opaque']))
         L.append('  lenMin := %d' % R.get('len_min', 0))
         L.append('  lenMax := %d' % R.get('len_max', 223))
+        L.append('  setterOK := %s' % ('true' if R['setter_ok'] else 'false'))
+        L.append('  setterPrefixOnly := %s' % ('true' if R.get('setter_tail') else 'false'))
+        L.append('  parserOK := %s' % ('true' if R['parser_ok'] else 'false'))
         L.append('')
         pair_names.append(nm)
         if not (R['setter_ok'] and has_parser):
@@ -1654,10 +1664,10 @@ def emit_lean(results, gen_dir, stats):
         gtn = 'C05_pgn_%s_guards' % pgn_txt
         gk = ('%s' % R['pgn'], 'guard')
         if gk in openk:
-            Pf.append('theorem %s_mismatch : (payloadGuardOK %s && guardOK %s) = false := by decide +kernel' % (gtn, nm, nm))
+            Pf.append('theorem %s_mismatch : guardsOK %s = false := by decide +kernel' % (gtn, nm))
             negated.append('C05:%s:guard' % R['id'])
         else:
-            Pf.append('theorem %s : (payloadGuardOK %s && guardOK %s) = true := by decide +kernel' % (gtn, nm, nm))
+            Pf.append('theorem %s : guardsOK %s = true := by decide +kernel' % (gtn, nm))
             if R.get('guard') != R['pgn']:
                 failing.append('C05:%s:guard' % R['id'])
         n_obl += 1
@@ -1689,8 +1699,293 @@ def emit_lean(results, gen_dir, stats):
                  pairs_translated=translated_pairs)
 
 
+
+# ------------------------------------------------------------------------------------------------ harness glue
+
+def shallow_scaled(world, fn):
+    """every Add/Get<N>Byte[U]Double call in the body, wherever it is (also inside conditionals):
+    field name -> (w, signed, literal text, Decimal). Used for the harness only (documented resolutions)."""
+    out = {}
+
+    def strip(x):
+        while x.get('kind') in ('ImplicitCastExpr', 'ParenExpr', 'CStyleCastExpr', 'MaterializeTemporaryExpr', 'ExprWithCleanups'):
+            x = x['inner'][-1]
+        return x
+
+    def lit(x):
+        x = strip(x)
+        if x.get('kind') == 'FloatingLiteral':
+            t = world.src_text(x)
+            try:
+                return dec_text(t)
+            except Exception:
+                return Decimal(x['value'])
+        if x.get('kind') == 'IntegerLiteral':
+            return Decimal(int(x['value']))
+        return None
+
+    def nameof(x):
+        x = strip(x)
+        if x.get('kind') == 'DeclRefExpr':
+            return x['referencedDecl']['name']
+        if x.get('kind') == 'MemberExpr':
+            return x['name']
+        return None
+
+    def call_info(c):
+        c = strip(c)
+        if c.get('kind') != 'CXXMemberCallExpr':
+            return None
+        me = c['inner'][0]
+        m = DBL.fullmatch(me.get('name', '')) if me.get('kind') == 'MemberExpr' else None
+        if not m:
+            return None
+        return m, [a for a in c['inner'][1:] if a['kind'] != 'CXXDefaultArgExpr']
+
+    def walk(n):
+        k = n.get('kind')
+        if k == 'CXXMemberCallExpr':
+            ci = call_info(n)
+            if ci and ci[0].group(1) == 'Add' and len(ci[1]) >= 2:
+                nm, d = nameof(ci[1][0]), lit(ci[1][1])
+                if nm and d is not None and nm not in out:
+                    out[nm] = (int(ci[0].group(2)), ci[0].group(3) == '', d)
+        if k == 'BinaryOperator' and n.get('opcode') == '=':
+            ci = call_info(n['inner'][1])
+            if ci and ci[0].group(1) == 'Get' and len(ci[1]) >= 2:
+                nm, d = nameof(n['inner'][0]), lit(ci[1][0])
+                if nm and d is not None and nm not in out:
+                    out[nm] = (int(ci[0].group(2)), ci[0].group(3) == '', d)
+        for c in n.get('inner', []):
+            walk(c)
+    walk(fn)
+    return out
+
+
+def shallow_text(world, fn):
+    """AddStr/AddAISStr/AddVarStr calls: field -> (kind, max length)"""
+    out = {}
+
+    def strip(x):
+        while x.get('kind') in ('ImplicitCastExpr', 'ParenExpr', 'CStyleCastExpr'):
+            x = x['inner'][-1]
+        return x
+
+    def walk(n):
+        if n.get('kind') == 'CXXMemberCallExpr' and n['inner'][0].get('kind') == 'MemberExpr' and n['inner'][0].get('name') in ('AddStr', 'AddAISStr', 'AddVarStr'):
+            a = strip(n['inner'][1])
+            nm = a['referencedDecl']['name'] if a.get('kind') == 'DeclRefExpr' else (a.get('name') if a.get('kind') == 'MemberExpr' else None)
+            ln = const_of(n['inner'][2])
+            if nm:
+                out[nm] = ({'AddStr': 'str', 'AddAISStr': 'ais', 'AddVarStr': 'var'}[n['inner'][0]['name']], ln)
+        for c in n.get('inner', []):
+            walk(c)
+    walk(fn)
+    return out
+
+
+def cdec(d):
+    """Decimal -> C++ double literal text"""
+    t = format(d, 'f') if -8 < d.adjusted() < 12 else '%E' % d
+    if '.' not in t and 'E' not in t and 'e' not in t:
+        t += '.0'
+    return t
+
+
+def emit_glue(results, path, worlds):
+    H = ['// GENERATED by tools/translators/layouts.py on every run - call glue for harness/layout.cpp.',
+         '// Signatures, C types, enumerators and the resolution literals of the Add/Get...Double calls only. The fields',
+         '// model*/unk* describe what the Lean driver prints (formatting of the correspondence lines), nothing else.',
+         '#pragma once', '#include <string>', '#include <cstring>', '#include "N2kMessages.h"', '#include "N2kMaretron.h"', '#include "NMEA2000.h"',
+         'namespace lg {',
+         'struct Val { long long i; double d; std::string s; Val() : i(0), d(0) {} };',
+         'enum Kind { K_UINT, K_SINT, K_ENUM, K_BOOL, K_SCALED, K_UNION, K_TEXT };',
+         'struct Field { const char *name; Kind kind; int typeBits; int pTypeBits; int W; bool inSetter, inParser;',
+         '  int sW; bool sSigned; double sRes; int pW; bool pSigned; double pRes;',
+         '  const long long *enumerators; int nEnum; int modelOut; int textKind; int textLen; };',
+         'struct Pair { const char *id; unsigned long pgn; const Field *f; int nf;',
+         '  void (*set)(tN2kMsg &, const Val *); bool (*parse)(const tN2kMsg &, Val *);',
+         '  bool modelSetter, modelParser; int modelPrefixBytes; const int *unkBytes; int nUnk; };', '']
+    table, skipped = [], []
+    for R in results:
+        S, P = R.get('S'), R.get('P')
+        if not (S and P and R['setter_name'] and R['parser_name']):
+            continue
+        cid = ident(R['id'])
+        names = R['names']
+        idx = {n: i for i, n in enumerate(names)}
+        w = worlds[R['file']]
+        sfn = [f for f in w.funcs if f is S.fn][0]
+        pfn = [f for f in w.funcs if f is P.fn][0]
+        ssc, psc = shallow_scaled(w, sfn), shallow_scaled(w, pfn)
+        stx = shallow_text(w, sfn)
+        problems = []
+
+        def canon(n):
+            if n in idx:
+                return n
+            a = [k for k in idx if k.lower() == n.lower()]
+            return a[0] if a else None
+
+        def ctype(q):
+            return re.sub(r'\s*&\s*$', '', re.sub(r'^const\s+', '', q)).strip()
+
+        # ---- setter call
+        set_lines, set_args = [], []
+        for prm in S.params:
+            if prm['role'] == 'msg':
+                set_args.append('m')
+                continue
+            t, q, nm = prm['type'], prm['qual'], prm['name']
+            if t[0] == 'rec' and w.records[t[1]]['tag'] == 'struct':
+                set_lines.append('  %s %s;' % (t[1], nm))
+                for fname, fq in w.records[t[1]]['fields']:
+                    ft = w.ty(fq)
+                    i = idx[canon(fname)]
+                    fqt = fq.get('qualType', '')
+                    if ft[0] in ('int', 'enum'):
+                        set_lines.append('  %s.%s = (%s)v[%d].i;' % (nm, fname, fqt, i))
+                    elif ft[0] == 'fp':
+                        set_lines.append('  %s.%s = v[%d].d;' % (nm, fname, i))
+                    elif re.match(r'char\s*\[\d+\]', fqt):
+                        set_lines.append('  strncpy(%s.%s, v[%d].s.c_str(), sizeof(%s.%s)); %s.%s[sizeof(%s.%s)-1]=0;' % (nm, fname, i, nm, fname, nm, fname, nm, fname))
+                    else:
+                        problems.append('struct member %s of type %s' % (fname, fqt))
+                set_args.append(nm)
+                continue
+            i = idx[canon(nm)]
+            if t[0] in ('int', 'enum'):
+                set_args.append('(%s)v[%d].i' % (ctype(q), i))
+            elif t[0] == 'fp':
+                set_args.append('v[%d].d' % i)
+            elif t[0] == 'rec' and w.records[t[1]]['tag'] == 'union':
+                fd = S.fields[S.fieldidx[nm]]
+                set_lines.append('  %s u%d; u%d.%s = (%s)v[%d].i;' % (t[1], i, i, fd['member'], w.records[t[1]]['fields'][0][1]['qualType'], i))
+                set_args.append('u%d' % i)
+            elif re.match(r'const char \*$', q.strip()):
+                set_args.append('v[%d].s.c_str()' % i)
+            else:
+                problems.append('setter parameter %s of type %s' % (nm, q))
+        # ---- parser call
+        par_decl, par_args, par_back = [], [], []
+        pnames = [p['name'] for p in P.params]
+        for prm in P.params:
+            if prm['role'] == 'msg':
+                par_args.append('m')
+                continue
+            t, q, nm = prm['type'], prm['qual'], prm['name']
+            if t[0] == 'rec' and w.records[t[1]]['tag'] == 'struct':
+                par_decl.append('  %s %s;' % (t[1], nm))
+                for fname, fq in w.records[t[1]]['fields']:
+                    ft = w.ty(fq)
+                    c = canon(fname)
+                    if c is None:
+                        continue
+                    i = idx[c]
+                    if ft[0] in ('int', 'enum'):
+                        par_back.append('  v[%d].i = (long long)%s.%s;' % (i, nm, fname))
+                    elif ft[0] == 'fp':
+                        par_back.append('  v[%d].d = %s.%s;' % (i, nm, fname))
+                    elif re.match(r'char\s*\[\d+\]', fq.get('qualType', '')):
+                        par_back.append('  v[%d].s = std::string(%s.%s, strnlen(%s.%s, sizeof(%s.%s)));' % (i, nm, fname, nm, fname, nm, fname))
+                par_args.append(nm)
+                continue
+            if prm['role'] == 'out':
+                i = idx[canon(nm)]
+                if t[0] in ('int', 'enum'):
+                    par_decl.append('  %s o%d = (%s)0;' % (ctype(q), i, ctype(q)))
+                    par_args.append('o%d' % i)
+                    par_back.append('  v[%d].i = (long long)o%d;' % (i, i))
+                elif t[0] == 'fp':
+                    par_decl.append('  double o%d = 0;' % i)
+                    par_args.append('o%d' % i)
+                    par_back.append('  v[%d].d = o%d;' % (i, i))
+                elif t[0] == 'rec' and w.records[t[1]]['tag'] == 'union':
+                    fd = P.fields[P.fieldidx[nm]]
+                    par_decl.append('  %s o%d;' % (t[1], i))
+                    par_args.append('o%d' % i)
+                    par_back.append('  v[%d].i = (long long)o%d.%s;' % (i, i, fd['member']))
+                else:
+                    problems.append('parser output %s of type %s' % (nm, q))
+                continue
+            # by-value / pointer arguments: text buffers and their sizes
+            q0 = q.strip()
+            if q0 == 'char *':
+                c = canon(nm)
+                if c is None:
+                    problems.append('text buffer %s has no setter counterpart' % nm)
+                    continue
+                i = idx[c]
+                par_decl.append('  char b%d[300]; memset(b%d, 0x5a, sizeof b%d); b%d[299]=0;' % (i, i, i, i))
+                par_args.append('b%d' % i)
+                par_back.append('  v[%d].s = std::string(b%d, strnlen(b%d, sizeof b%d));' % (i, i, i, i))
+                continue
+            msz = re.fullmatch(r'(\w+?)(BufSize|MaxSize|Size)', nm)
+            if msz and canon(msz.group(1)) is not None and ('char *' in [pp.get('qual', '').strip() for pp in P.params if pp.get('name') == msz.group(1)]):
+                i = idx[canon(msz.group(1))]
+                if q0.endswith('&'):
+                    par_decl.append('  %s z%d = 300;' % (ctype(q0), i))
+                    par_args.append('z%d' % i)
+                else:
+                    par_args.append('(%s)300' % q0)
+                continue
+            problems.append('parser argument %s of type %s' % (nm, q))
+        if problems:
+            skipped.append((R['id'], problems))
+            continue
+        # ---- fields
+        flines = []
+        for i, nm in enumerate(names):
+            f = R['info'][nm]
+            kind = {'uint': 'K_UINT', 'sint': 'K_SINT', 'enum': 'K_ENUM', 'bool': 'K_BOOL', 'scaled': 'K_SCALED', 'union': 'K_UNION',
+                    'text': 'K_TEXT', 'other': 'K_TEXT'}[f['kind']]
+            sf, pf = f.get('sfield'), f.get('pfield')
+            anyf = sf or pf
+            if anyf['kind'] == 'other' and not (re.search(r'char', anyf.get('ctype', ''))):
+                kind = 'K_UINT'
+            def tbits(fd):
+                if fd is None:
+                    return 0
+                return {'bool': 1, 'enum': 32, 'scaled': 64}.get(fd['kind'], fd.get('mbits', fd['bits']) if fd['kind'] == 'union' else (fd['bits'] if fd['kind'] in ('uint', 'sint') else 0))
+            tb, ptb = tbits(sf) or tbits(pf), tbits(pf) or tbits(sf)
+            ptext = any(pp.get('name') == nm and pp.get('qual', '').strip() == 'char *' for pp in P.params)
+            en = anyf.get('enumerators')
+            if en:
+                H.append('static const long long en_%s_%d[] = {%s};' % (cid, i, ', '.join('%dLL' % x for x in en)))
+            s_ = ssc.get(nm) or next((v for k, v in ssc.items() if k.lower() == nm.lower()), None)
+            p_ = psc.get(nm) or next((v for k, v in psc.items() if k.lower() == nm.lower()), None)
+            tx = stx.get(nm)
+            mo = 0
+            if nm in R['opaque']:
+                mo = 2
+            elif nm in R['pouts']:
+                mo = 1
+            flines.append('  {"%s", %s, %d, %d, %d, %s, %s, %d, %s, %s, %d, %s, %s, %s, %d, %d, %d, %d}' % (
+                nm, kind, tb, ptb, R['widths'][i], 'true' if f.get('in_setter') and sf else 'false', 'true' if (pf or ptext) else 'false',
+                s_[0] if s_ else 0, 'true' if (s_ and s_[1]) else 'false', cdec(s_[2]) if s_ else '0.0',
+                p_[0] if p_ else 0, 'true' if (p_ and p_[1]) else 'false', cdec(p_[2]) if p_ else '0.0',
+                ('en_%s_%d' % (cid, i)) if en else 'nullptr', len(en) if en else 0, mo,
+                {'str': 1, 'ais': 2, 'var': 3}.get(tx[0], 0) if tx else 0, (tx[1] or 0) if tx else 0))
+        H.append('static const Field f_%s[] = {\n%s\n};' % (cid, ',\n'.join(flines)))
+        H.append('static void set_%s(tN2kMsg &m, const Val *v) {\n%s\n  %s(%s);\n}' % (cid, '\n'.join(set_lines), R['setter_name'], ', '.join(set_args)))
+        H.append('static bool parse_%s(const tN2kMsg &m, Val *v) {\n%s\n  bool r = %s(%s);\n%s\n  return r;\n}' % (
+            cid, '\n'.join(par_decl), R['parser_name'], ', '.join(par_args), '\n'.join(par_back)))
+        unk = sorted({k // 8 for k, b in enumerate(R['sbits']) if b is None})
+        H.append('static const int unk_%s[] = {%s};' % (cid, ', '.join(map(str, unk + [-1]))))
+        table.append('  {"%s", %dUL, f_%s, %d, set_%s, parse_%s, %s, %s, %d, unk_%s, %d}' % (
+            R['id'], R['pgn'] or 0, cid, len(names), cid, cid, 'true' if R['setter_ok'] else 'false', 'true' if R['parser_ok'] else 'false',
+            (len(R['sbits']) // 8) if R.get('setter_tail') else -1, cid, len(unk)))
+        H.append('')
+    H.append('static const Pair pairs[] = {\n%s\n};' % ',\n'.join(table))
+    H.append('static const int nPairs = %d;' % len(table))
+    H.append('}  // namespace lg')
+    write_if_changed(path, '\n'.join(H) + '\n')
+    return skipped
+
+
 def run(src_dir, gen_dir):
     results, stats = collect(src_dir)
+    worlds = stats.pop('_worlds')
     emit_lean(results, gen_dir, stats)
     fallbacks = []
     fields_t = fields_o = 0
@@ -1704,12 +1999,8 @@ def run(src_dir, gen_dir):
     stats.update(fallbacks=len(fallbacks), fallback_functions=fallbacks, fields_with_obligation=fields_t,
                  parser_outputs_not_translated=fields_o,
                  items_translated=sum(1 for R in results if R['setter_ok']) + sum(1 for R in results if R['parser_ok']))
-    try:
-        import importlib
-        glue = importlib.import_module('translators.layouts_glue')
-        glue.emit(results, os.path.join(VERIF, 'build', 'gen', 'layout_glue.h'))
-    except ImportError:
-        pass
+    skipped = emit_glue(results, os.path.join(VERIF, 'build', 'gen', 'layout_glue.h'), worlds)
+    stats['harness_glue_skipped'] = ['%s: %s' % (i, '; '.join(p)) for i, p in skipped]
     return stats
 
 
